@@ -194,6 +194,17 @@ CLAIMED = {
              "consistent instruction interleaving is assumed (the atomicity of BPF_XADD itself is the kernel's / hardware's guarantee); hash-map values are not exercised.",
         technique="Coq proof over all interleavings + multi-instance execution of real generated code in a kernel-validated ISA model",
         ref="7/C06"),
+    "C26": dict(
+        text="Theorems C26_control_law (for ALL inputs in the property's ranges - unbounded integers, no bit-width enumeration: the machine-level model of "
+             "Motor.program with 64-bit stmp, 32-bit DeviceVars, 16-bit output equals gain*(target-position) limited to the acceleration limit around the "
+             "previous velocity, then to +-velocity limit, zero when a switch blocks the direction) and C26_safe (never above the limit, never into an active "
+             "switch, never changing by more than the acceleration limit except to stop); C26_pinned_refuted documents the repaired defect. Tie: the REAL "
+             "program generated for a FastSyncGroup with a Motor on an EL7041 is executed in the kernel-validated Coq ISA model on boundary and random inputs; "
+             "velocity output must equal the model's (all cases) and the control law (oracle); enable bit, neighbouring bits, inputs and map must be as expected.",
+        note=TB + "Partial: the statement-level model is hand-written (tie by execution of the generated code, sampled); only the EL7041 layout (16-bit "
+             "velocity, 32-bit encoder) is exercised.",
+        technique="Coq proof over all inputs (lia over unbounded integers) + execution of the real generated device program in a kernel-validated ISA model",
+        ref="7/C26"),
 }
 
 REASONS_NOT_YET = "no check built yet in this round (planned, see DESIGN.md section 7); nothing is claimed for it"
